@@ -206,6 +206,36 @@ func (c *Ctx) mcChunk(cfg *MCConfig, gs []*gast.Grammar, base int, rng *rand.Ran
 		mcs = append(mcs, cs.c)
 	}
 	res := bt.Run(mcs, batch.RunOpts{})
+	// option independence of what the canonical value ignores: the nil-vs-empty structure of the
+	// returned value under Memoize / Debug / Statistics / ParseReader equals that of the run of the
+	// same grammar, flags, input and entrypoint without them (the model is not involved)
+	if cfg.Compare&CmpVal != 0 {
+		plainKey := func(cs *mcCase) string {
+			return fmt.Sprintf("%s|%s|%x|%d|%t|%t|%s|%d", cs.u.Pkg, cs.entry, cs.in, cs.os.Init, cs.os.AllowInvalid, cs.os.NoRecover, cs.os.File, cs.os.MaxExpr)
+		}
+		base := map[string]*mon.Result{}
+		for _, cs := range cases {
+			if !cs.os.Memo && !cs.os.Debug && !cs.os.Stats && !cs.os.Reader {
+				if r := res[cs.c.ID]; r != nil && r.Died == "" && !r.Timeout && r.Panic == "" {
+					base[plainKey(cs)] = r
+				}
+			}
+		}
+		for _, cs := range cases {
+			if !(cs.os.Memo || cs.os.Debug || cs.os.Stats || cs.os.Reader) {
+				continue
+			}
+			r, b := res[cs.c.ID], base[plainKey(cs)]
+			if r == nil || b == nil || r.Died != "" || r.Timeout || r.Panic != "" {
+				continue
+			}
+			c.CovAdd("value_shapes_compared_across_options", 1)
+			if r.Val == b.Val && r.Shape != b.Shape {
+				c.Report(&Violation{Class: c.Prop + "/value-shape", Summary: fmt.Sprintf("with options %s the returned value %s has another nil/empty structure (%s) than with default options (%s) on grammar %q flags [%s] input %q",
+					cs.os.Name, trunc(r.Val), r.Shape, b.Shape, gast.Short(cs.u.G), cs.u.FlagID, cs.in), Grammar: cs.u.Text, Flags: cs.u.Flags, Input: cs.in, Case: cs.c, Want: b.Shape, Got: r.Shape})
+			}
+		}
+	}
 	for _, cs := range cases {
 		m := models[cs.mkey]
 		r := res[cs.c.ID]
